@@ -96,7 +96,9 @@ class Run:
         e.update({k: str(v) for k, v in (env or {}).items()})
         heap = heap_gb or 8
         e["JAVA_TOOL_OPTIONS"] = "-Dfile.encoding=UTF-8 -Xss512m"
-        cmd = ["timeout", str(timeout), "java", "-Xmx%dg" % heap, "-XX:+UseParallelGC",
+        # -Xss must be on the command line: the launcher sizes the main thread (which computes the initial
+        # states) before JAVA_TOOL_OPTIONS is read
+        cmd = ["timeout", str(timeout), "java", "-Xss512m", "-Xmx%dg" % heap, "-XX:+UseParallelGC",
                "-cp", "/opt/veriftools/tla/tla2tools.jar:/opt/veriftools/tla/CommunityModules-deps.jar",
                "tlc2.TLC"]
         cmd += ["-metadir", meta, "-workers", str(workers or NCPU), "-config", cfg + ".cfg", "-continue",
@@ -146,6 +148,15 @@ class Run:
     def drive(self, cases, obs_name="obs.ndjson", nproc=None, case_timeout=120, env=None):
         """run the real code on every case; returns the path of the observation file (same order)"""
         lines = [l for l in open(cases, encoding="utf-8").read().split("\n") if l.strip()]
+        # the process time zone is a parameter of the environment: cases that do not fix it themselves get one of
+        # the zones below in rotation (zones without daylight saving time, so every wall-clock reading exists);
+        # it travels with the case, so a replay runs in the same zone
+        for i, l in enumerate(lines):
+            if '"tz"' not in l or '"tz": ""' in l or '"tz":""' in l:
+                c = json.loads(l)
+                if not c.get("tz"):
+                    c["tz"] = ZONES[(i + self.seed) % len(ZONES)]
+                    lines[i] = json.dumps(c, ensure_ascii=False)
         n = len(lines)
         self.cases += n
         nproc = max(1, min(nproc or NCPU, (n + 3) // 4))
@@ -312,11 +323,15 @@ def denull(v):
     return v
 
 
+ZONES = ["UTC", "Pacific/Kiritimati", "Pacific/Pago_Pago", "Asia/Kolkata", "UTC", "Asia/Kathmandu"]
+
+
 def decode_json_fields(ev):
     """well-formedness of `klog json` output is decided here, by Python's json module; TLC cannot read null,
     so the two top-level arrays get explicit null flags and any other null becomes a sentinel string"""
     o = ev.get("obs", {})
-    for raw, dst in (("json_raw", "json"), ("json_pretty_raw", "json_pretty")):
+    for raw, dst in (("json_raw", "json"), ("json_pretty_raw", "json_pretty"), ("json_multi_raw", "json_multi"),
+                     ("stdin_json_raw", "json_stdin")):
         if raw in o:
             try:
                 v = json.loads(o[raw])
@@ -395,7 +410,7 @@ def parse_tlc(out):
                      "Error: In evaluation", "Error: Attempted to", "Error: The first argument", "Error: The second argument",
                      "was not in the domain", "Error: There was a conflict", "Error: Deadlock", "Fatal error",
                      "Error: Action property", "Error: Temporal properties", "Error: Cannot find", "Error: An exception",
-                     "Error: The exception", "Error: Unknown", "Could not"]
+                     "Error: The exception", "Error: Unknown", "Could not", "StackOverflowError"]
     for l in out.split("\n"):
         if any(k in l for k in fatal_markers):
             res["fatal"].append(l)
